@@ -26,6 +26,14 @@ CHECKS = {
    technique="bounded-exhaustive enumeration of directory trees x go:embed pattern lists, real goembed package vs `go list` of the reference toolchain",
    text="Every subset of <=2 (thorough 3) of 22 tree entries chosen around Go's embed rules (hidden and underscore names, all:, VCS directories, nested modules, empty dirs, symlinks, invalid names, sibling-prefix names) plus the full tree, crossed with 41 pattern lists and directive-text variants, is materialised on disk; LoadDirectives/ResolvePatterns must accept exactly what `go list` accepts and embed exactly the same files with the bytes on disk, and BuildFSEntries must produce the table order embed.FS searches.",
    note="Oracle is go1.24.0's go list; the materialisation of embedded data into globals by cl/embed.go (compiled programs) is not covered yet.", ref="§4 C16"),
+ "C02": dict(cat="exploration", engine="tc",
+   technique="bounded-exhaustive differential execution: table-driven evaluators (8-bit operand space complete, boundary products above) built by llgo and by go1.24.0",
+   text="Eight generated evaluator programs cover every operator and conversion: all 65,536 operand pairs per binary operator on int8/uint8 (variable/variable) plus constant-operand forms on either side, all values for 8- and 16-bit unary operators and conversions to every numeric type, the full cross product of a boundary alphabet (incl. rounding witnesses for int->float) for 32/64-bit types, shifts over operand type x count type x boundary counts with variable and constant counts, float and complex arithmetic on special values. Each row of results must equal the reference toolchain's, on the LLVM-14 -O0 back end and on the same IR optimised by clang 22 -O2; divide-by-zero and negative shifts must panic (and nothing else may).",
+   note="64-bit operand spaces are covered on boundary alphabets only; NaN sign/payload not compared; O2 = clang 22 on llgo's -O0 IR.", ref="§4 C02"),
+ "C03": dict(cat="exploration", engine="tc",
+   technique="bounded-exhaustive differential execution of index/slice forms and fault probes (panic decision, side-effect trace, repeatability) against go1.24.0",
+   text="Every 1/2/3-index form on slices, arrays, array pointers and strings x 9 index types x containers whose lengths straddle the narrow index types' ranges x the full product of boundary index values as run-time values, constant-index forms on run-time sized containers, and 74 fault probes (nil dereference at offsets 0/4800/1 MiB, maps, assertions, division, make, slice-to-array, channel misuse, evaluation-order traces), each once, three times in one goroutine and once in a fresh goroutine. The panic/no-panic decision, the trace of side effects before and after, and the result descriptors must equal the reference toolchain's.",
+   note="Panic values are not compared. Known findings (repeated SIGSEGV in one thread, discarded nil loads, nil *array slicing, select-send on closed channel) are listed per case in known_findings.txt.", ref="§4 C03"),
 }
 ALL = ["C%02d" % i for i in range(1, 21)]
 m = {
